@@ -30,7 +30,7 @@ func c17Leaf(name string) c17Node {
 	case 0:
 		return c17Node{kind: vNum, num: c17Nums[vh.Choose(name+"n", 3)]} // the full list: VHC17Numbers
 	case 1:
-		s := vh.Bytes(name+"s", 2)
+		s := vh.Bytes(name+"s", 2*vh.Choose(name+"sl", 2)) // empty or two bytes
 		return c17Node{kind: vStr, str: s}
 	case 2:
 		return c17Node{kind: vBool, b: vh.Bool(name + "b")}
